@@ -310,3 +310,22 @@ PROPS["C05"] = {
         {"name": "hello", "pkg": "region", "entry": "VerifHello", "reach": ["hello"], "params": {"quick": {"protoMax": 3}, "thorough": {"protoMax": 6}}},
     ],
 }
+
+PROPS["C20"] = {
+    "files": ["root/fakes.go", "root/c08_cache.go", "root/c01_routing.go", "root/c20_connections.go", "region/fakes.go", "region/c20_dialonce.go"],
+    "claim": "Every sequence of STEPS put / del / clientDown operations on the connection cache over two addresses and three regions: a "
+             "put returns the connection held for the address unless it was declared dead (clientDown), opens one otherwise, and never "
+             "crosses addresses. R regions of one address established concurrently by the real establishRegion (every interleaving "
+             "within the bound) create one region client; later regions reuse it; another address gets its own. CALLERS concurrent Dial "
+             "calls on a real region client dial once and all see that outcome.",
+    "outside": "address aliasing (one server under two names); more than R regions / CALLERS callers; data races",
+    "assumptions": ["fake region clients at the hrpc.RegionClient seam for the establisher harness (probe always answered)"],
+    "jobs": [
+        {"name": "client_cache_ops", "pkg": "root", "entry": "VerifClientCacheOps", "reach": ["reused", "declared-dead"],
+         "params": {"quick": {"STEPS": 4}, "thorough": {"STEPS": 6}}},
+        {"name": "establish_shared", "pkg": "root", "entry": "VerifEstablishShared", "reach": ["established"],
+         "preempts": {"quick": 2, "thorough": 3}, "params": {"quick": {"R": 2}, "thorough": {"R": 3}}},
+        {"name": "dial_once", "pkg": "region", "entry": "VerifDialOnce", "reach": ["dialled"],
+         "preempts": {"quick": 2, "thorough": 3}, "params": {"quick": {"CALLERS": 2, "protoMax": 1, "protoFixed": 1}, "thorough": {"CALLERS": 3, "protoMax": 1, "protoFixed": 1}}},
+    ],
+}
